@@ -9,7 +9,8 @@
     * `C18_rgb_to_hsl_range`      r, g, b in [0,1]  ->  hue in [0,1), saturation in [0,1], lightness in [0,1];
     * `C18_hsv_value_is_max`, `C18_hsl_lightness_is_mid`;
     * `C18_hsv_sat_zero_iff_grey` (+ `_rgb8_lattice`), `C18_hsl_sat_zero_iff_grey` (+ `_rgb8_lattice`);
-    * `C18_hsv_to_rgb_max_is_v`   the largest channel of hsv -> rgb is exactly v.
+    * `C18_hsv_to_rgb_max_is_v`   the largest channel of hsv -> rgb is exactly v;
+    * `C18_hsv_hue_period`, `C18_hsv_hue_period_nat`   hsv -> rgb at hue h + n equals hue h for every h >= 0 and natural n.
 -/
 import GilVerif.Model.C18
 import Mathlib.Tactic.Linarith
@@ -220,6 +221,33 @@ theorem C18_hsv_to_rgb_max_is_v (h s v : Rat) (hh : 0 ≤ h) (hs : 0 ≤ s ∧ s
       | (rw [max_eq_left t1 (a := v), max_eq_right p1])
       | (rw [max_eq_right q1, max_eq_right p1])
       | (rw [max_eq_right p1 (b := v), max_eq_right t1])
+
+/-! ## hsv -> rgb: hue has period 1 -/
+
+/-- hue has period 1 on the whole non-negative axis: hue h + 1 denotes the same colour as hue h (in particular 1 and 0) -/
+theorem C18_hsv_hue_period (h s v : Rat) (hh : 0 ≤ h) : hsvToRgbQ (h + 1) s v = hsvToRgbQ h s v := by
+  have hx : (0:Rat) ≤ h * 6 := by linarith
+  have e : (h + 1) * 6 = h * 6 + 6 := by ring
+  have h1 : (h * 6 + 6).floor = (h * 6).floor + 6 := by
+    show ⌊h * 6 + 6⌋ = ⌊h * 6⌋ + 6
+    have := Int.floor_add_intCast (h * 6) 6
+    exact_mod_cast this
+  have f0 : 0 ≤ (h * 6).floor := by
+    show 0 ≤ ⌊h * 6⌋
+    exact Int.floor_nonneg.mpr hx
+  have fl : ((h * 6 + 6).floor).toNat = (h * 6).floor.toNat + 6 := by rw [h1]; omega
+  have fr : h * 6 + 6 - (((h * 6).floor.toNat : Rat) + 6) = h * 6 - ((h * 6).floor.toNat : Rat) := by ring
+  unfold hsvToRgbQ
+  simp only [e, fl, Nat.add_mod_right, Nat.cast_add, Nat.cast_ofNat, fr]
+
+theorem C18_hsv_hue_period_nat (n : Nat) (h s v : Rat) (hh : 0 ≤ h) : hsvToRgbQ (h + n) s v = hsvToRgbQ h s v := by
+  induction n with
+  | zero => simp
+  | succ k ih =>
+    have : h + ((k + 1 : Nat) : Rat) = (h + k) + 1 := by push_cast; ring
+    rw [this, C18_hsv_hue_period _ s v (by positivity), ih]
+
+example : hsvToRgbQ (7/3) 1 1 = hsvToRgbQ (1/3) 1 1 ∧ hsvToRgbQ (1/3) 1 1 = ⟨0, 1, 0⟩ := by decide +kernel
 
 /-! ## rgb -> hsl -/
 
